@@ -318,6 +318,9 @@ var vC07Names = []string{
 	"192.0.2.1", "[::1]", "2001:db8::1", "fe80::1%eth0", "example.com.", "example.com..", "*.example.com",
 	"_dmarc.example.net", "x", "a-very-long-label-aaaaaaaaaaaaaaaaaaaaaaaaaaaaaaaaaaaaaaaaaaaaaaaaaaaa.example",
 	"caf\xc3\xa9.example", "sub.Example.COM.", "127.0.0.1.", "1.2.3.4.5", "name with space.example",
+	"xn--80akhbyknj4f.xn--p1ai", "0.example", "a.b.c.d.e.f.g.h.i.j.k.l.m.n.o.p.q.r.s.t.u.v.w.x.y.z.example", "::ffff:192.0.2.7", "[2001:db8::2]",
+	"ex\x00ample.com", ".", "..", ".leading.example", "1e3.example", "255.255.255.255", "256.1.1.1",
+	strings.Repeat("a.", 126) + "b", strings.Repeat("x", 63) + "." + strings.Repeat("y", 63) + "." + strings.Repeat("z", 63) + "." + strings.Repeat("w", 61),
 }
 
 var vC07Versions = []uint16{0, tls.VersionTLS10, tls.VersionTLS11, tls.VersionTLS12, tls.VersionTLS13}
@@ -341,11 +344,13 @@ type vC07Cfg struct {
 	curves   []tls.CurveID
 	noTicket bool
 	resume   int // 0 none, 12, 13
+	reneg    tls.RenegotiationSupport
+	ems      bool // extended master secret offered (GODEBUG tlsunsafeekm has no effect on the hello; kept for the record)
 }
 
 func (c vC07Cfg) String() string {
-	return fmt.Sprintf("name=%q alpn=%q min=%#x max=%#x suites=%v curves=%v noticket=%v resume=%d",
-		c.name, c.protos, c.min, c.max, c.suites, c.curves, c.noTicket, c.resume)
+	return fmt.Sprintf("name=%q alpn=%q min=%#x max=%#x suites=%v curves=%v noticket=%v resume=%d reneg=%d",
+		c.name, c.protos, c.min, c.max, c.suites, c.curves, c.noTicket, c.resume, c.reneg)
 }
 
 func vC07RandName(r *vRng) string {
@@ -416,16 +421,19 @@ func vC07GenCfg(r *vRng, i int) vC07Cfg {
 		}
 	}
 	if r.Intn(2) == 0 {
-		all := []tls.CurveID{tls.X25519, tls.CurveP256, tls.CurveP384, tls.CurveP521}
-		n := 1 + r.Intn(4)
+		// 0x6399 is X25519Kyber768Draft00 (what a nil preference list puts first in Go 1.23)
+		all := []tls.CurveID{tls.X25519, tls.CurveP256, tls.CurveP384, tls.CurveP521, tls.CurveID(0x6399)}
+		n := 1 + r.Intn(5)
 		for k := 0; k < n; k++ {
-			c.curves = append(c.curves, all[r.Intn(4)])
+			c.curves = append(c.curves, all[r.Intn(5)])
 		}
 	}
 	c.noTicket = r.Intn(4) == 0
 	if r.Intn(5) == 0 {
 		c.resume = 12 + r.Intn(2)
 	}
+	c.reneg = tls.RenegotiationSupport(r.Intn(3))
+	c.ems = r.Intn(6) != 0
 	return c
 }
 
@@ -494,7 +502,7 @@ func vC07Session(cert tls.Certificate, ver uint16, name string) (tls.ClientSessi
 // the first record a crypto/tls client writes for cfg (nil when it fails before writing)
 func vC07ClientHello(c vC07Cfg, caches map[int]tls.ClientSessionCache) []byte {
 	cfg := &tls.Config{ServerName: c.name, InsecureSkipVerify: true, NextProtos: c.protos, MinVersion: c.min, MaxVersion: c.max,
-		CipherSuites: c.suites, CurvePreferences: c.curves, SessionTicketsDisabled: c.noTicket}
+		CipherSuites: c.suites, CurvePreferences: c.curves, SessionTicketsDisabled: c.noTicket, Renegotiation: c.reneg}
 	if c.resume != 0 && caches[c.resume] != nil {
 		cfg.ClientSessionCache = caches[c.resume]
 		cfg.ServerName = fmt.Sprintf("resume%d.example", c.resume)
@@ -652,6 +660,8 @@ type vC07MatchRes struct {
 	set     bool
 	name    string
 	version uint16
+	// "{l4.tls.server_name}|{l4.tls.version}" as a handler configured with these placeholders gets it
+	rendered string
 }
 
 // MatchTLS.Match through the public path on a connection that holds exactly p as prefetched bytes
@@ -672,7 +682,9 @@ func vC07Match(p []byte, subs []caddytls.ConnectionMatcher) vC07MatchRes {
 	}
 	repl := cx.Context.Value(layer4.ReplacerCtxKey).(interface {
 		Get(string) (any, bool)
+		ReplaceAll(string, string) string
 	})
+	res.rendered = repl.ReplaceAll("{l4.tls.server_name}|{l4.tls.version}", "<unset>")
 	if v, ok := repl.Get("l4.tls.server_name"); ok {
 		res.set = true
 		res.name, _ = v.(string)
@@ -752,7 +764,8 @@ func vC07RandU16s(r *vRng, n int) []uint16 {
 
 // mutations that keep the hello acceptable to crypto/tls's parser
 var vC07OkMuts = []string{"reorder", "grease", "unknown", "padding", "sni-bytes", "sni-multi", "alpn-bytes", "versions", "legacy",
-	"ciphers", "curves", "noexts", "emptyexts", "sid", "comp", "recver", "drop-ext", "sigalgs", "points", "no-sni"}
+	"ciphers", "curves", "noexts", "emptyexts", "sid", "comp", "recver", "drop-ext", "sigalgs", "points", "no-sni",
+	"cookie", "early-data", "ticket", "keyshare-ok", "psk-ok", "psk-modes", "status-ok", "renego-ok", "browser-like", "unknown-around"}
 
 func vC07MutateOk(r *vRng, h *vHello, kind string) {
 	switch kind {
@@ -875,13 +888,121 @@ func vC07MutateOk(r *vRng, h *vHello, kind string) {
 		h.set(r, 11, vVec(1, r.Bytes(1+r.Intn(4))))
 	case "no-sni":
 		h.remove(0)
+	case "browser-like":
+		// GREASE extension first, permuted extensions with compress_certificate / ALPS / ECH-GREASE /
+		// record_size_limit among them, a second GREASE extension (one data byte) and padding at the end
+		// (before pre_shared_key), GREASE values in suites, groups, versions and key shares
+		n := len(h.exts)
+		var psk []vExt
+		if n > 0 && h.exts[n-1].typ == 41 {
+			psk = []vExt{h.exts[n-1]}
+			h.exts = h.exts[:n-1]
+		}
+		for _, e := range []vExt{{27, []byte{2, 0, 2}}, {17513, []byte{0, 3, 2, 'h', '2'}}, {0xfe0d, r.Bytes(20 + r.Intn(200))}, {28, []byte{0x40, 1}}} {
+			if h.find(e.typ) < 0 && r.Intn(3) != 0 {
+				h.exts = append(h.exts, e)
+			}
+		}
+		for i := len(h.exts) - 1; i > 0; i-- {
+			j := r.Intn(i + 1)
+			h.exts[i], h.exts[j] = h.exts[j], h.exts[i]
+		}
+		g1 := vC07Grease(r)
+		g2 := vC07Grease(r)
+		for g2 == g1 {
+			g2 = vC07Grease(r)
+		}
+		if h.find(g1) < 0 && h.find(g2) < 0 {
+			h.exts = append([]vExt{{g1, nil}}, h.exts...)
+			h.exts = append(h.exts, vExt{g2, []byte{0}})
+		}
+		if h.find(21) < 0 {
+			h.exts = append(h.exts, vExt{21, make([]byte, r.Intn(300))})
+		}
+		h.exts = append(h.exts, psk...)
+		h.hasExts = true
+		h.suites = append([]uint16{vC07Grease(r)}, h.suites...)
+		if i := h.find(10); i >= 0 && len(h.exts[i].data) >= 2 {
+			h.exts[i].data = vVec(2, append(vP16(vC07Grease(r)), h.exts[i].data[2:]...))
+		}
+		if i := h.find(43); i >= 0 && len(h.exts[i].data) >= 1 && len(h.exts[i].data) < 250 {
+			h.exts[i].data = vVec(1, append(vP16(vC07Grease(r)), h.exts[i].data[1:]...))
+		}
+		if i := h.find(51); i >= 0 && len(h.exts[i].data) >= 2 {
+			gs := append(vP16(vC07Grease(r)), vVec(2, []byte{0})...)
+			h.exts[i].data = vVec(2, append(gs, h.exts[i].data[2:]...))
+		}
+	case "unknown-around":
+		// unknown / GREASE extensions immediately before and after server_name, ALPN and supported_versions
+		for _, t := range []uint16{0, 16, 43} {
+			i := h.find(t)
+			if i < 0 {
+				continue
+			}
+			var before, after []vExt
+			for k := r.Intn(3); k > 0; k-- {
+				if u := vC07UnknownType(r); h.find(u) < 0 {
+					before = append(before, vExt{u, r.Bytes(r.Intn(12))})
+				}
+			}
+			if u := vC07UnknownType(r); h.find(u) < 0 && (len(before) == 0 || before[0].typ != u) {
+				after = append(after, vExt{u, r.Bytes(r.Intn(12))})
+			}
+			seen := map[uint16]bool{}
+			ok := true
+			for _, e := range append(append([]vExt{}, before...), after...) {
+				if seen[e.typ] {
+					ok = false
+				}
+				seen[e.typ] = true
+			}
+			if !ok {
+				continue
+			}
+			ne := append([]vExt{}, h.exts[:i]...)
+			ne = append(ne, before...)
+			ne = append(ne, h.exts[i])
+			ne = append(ne, after...)
+			ne = append(ne, h.exts[i+1:]...)
+			h.exts = ne
+		}
+	case "cookie":
+		h.set(r, 44, vVec(2, r.Bytes(1+r.Intn(40))))
+	case "early-data":
+		h.set(r, 42, nil)
+	case "ticket":
+		h.set(r, 35, r.Bytes(r.Intn(200)))
+	case "keyshare-ok":
+		var ks []byte
+		for k := r.Intn(4); k > 0; k-- {
+			ks = append(ks, vP16(vC07RandU16s(r, 1)[0])...)
+			ks = append(ks, vVec(2, r.Bytes(1+r.Intn(70)))...)
+		}
+		h.set(r, 51, vVec(2, ks))
+	case "psk-ok":
+		h.remove(41)
+		var ids, bs []byte
+		for k := 1 + r.Intn(3); k > 0; k-- {
+			ids = append(ids, vVec(2, r.Bytes(1+r.Intn(60)))...)
+			ids = append(ids, r.Bytes(4)...)
+			bs = append(bs, vVec(1, r.Bytes(1+r.Intn(48)))...)
+		}
+		h.hasExts = true
+		h.exts = append(h.exts, vExt{41, append(vVec(2, ids), vVec(2, bs)...)})
+	case "psk-modes":
+		h.set(r, 45, vVec(1, r.Bytes(r.Intn(4))))
+	case "status-ok":
+		h.set(r, 5, append([]byte{byte(r.Intn(3))}, append(vVec(2, r.Bytes(r.Intn(12))), vVec(2, r.Bytes(r.Intn(12)))...)...))
+	case "renego-ok":
+		h.set(r, 0xff01, vVec(1, r.Bytes(r.Intn(13))))
 	}
 }
 
 // mutations crypto/tls's parser rejects (no oracle claim; they exercise the parser's early-return
 // paths for the model correspondence)
 var vC07BadMuts = []string{"truncate", "dup-ext", "sni-dot", "sni-two-hosts", "sni-empty", "alpn-empty-proto", "alpn-empty-list", "odd-list",
-	"psk-not-last", "ext-trailing", "bad-extlen", "odd-suites", "trailing-after-exts", "short-vector"}
+	"psk-not-last", "ext-trailing", "bad-extlen", "odd-suites", "trailing-after-exts", "short-vector",
+	"cookie-empty", "psk-malformed", "keyshare-malformed", "status-malformed", "renego-malformed", "points-empty", "sct-nonempty", "early-nonempty"}
 
 func vC07MutateBad(r *vRng, h *vHello, kind string) {
 	switch kind {
@@ -974,6 +1095,51 @@ func vC07MutateBad(r *vRng, h *vHello, kind string) {
 	case "short-vector":
 		t := []uint16{0, 10, 16, 43, 51, 13}[r.Intn(6)]
 		h.set(r, t, r.Bytes(r.Intn(2)))
+	case "cookie-empty":
+		h.set(r, 44, vVec(2, nil))
+	case "psk-malformed":
+		h.remove(41)
+		id := append(vVec(2, r.Bytes(9)), r.Bytes(4)...)
+		okIDs, okBs := vVec(2, append(append([]byte{}, id...), id...)), vVec(2, append(vVec(1, r.Bytes(32)), vVec(1, r.Bytes(32))...))
+		var d []byte
+		switch r.Intn(7) {
+		case 0:
+			d = append(vVec(2, nil), okBs...) // no identities
+		case 1:
+			d = append(vVec(2, append(append([]byte{}, id...), append(vVec(2, nil), 0, 0, 0, 1)...)), okBs...) // empty label after a good one
+		case 2:
+			d = append(vVec(2, append(append([]byte{}, id...), id[:len(id)-2]...)), okBs...) // truncated age after a good identity
+		case 3:
+			d = append(append([]byte{}, okIDs...), vVec(2, nil)...) // no binders
+		case 4:
+			d = append(append([]byte{}, okIDs...), vVec(2, append(vVec(1, r.Bytes(32)), 0))...) // empty binder after a good one
+		case 5:
+			d = append([]byte{}, okIDs...) // binders missing
+		default:
+			d = append(append(append([]byte{}, okIDs...), okBs...), 7) // trailing byte
+		}
+		h.hasExts = true
+		h.exts = append(h.exts, vExt{41, d})
+	case "keyshare-malformed":
+		good := append(vP16(29), vVec(2, r.Bytes(32))...)
+		switch r.Intn(3) {
+		case 0:
+			h.set(r, 51, vVec(2, append(append([]byte{}, good...), append(vP16(23), vVec(2, nil)...)...))) // empty key after a good share
+		case 1:
+			h.set(r, 51, vVec(2, append(append([]byte{}, good...), 0, 23, 0))) // truncated second share
+		default:
+			h.set(r, 51, append(vVec(2, good), 1)) // trailing byte
+		}
+	case "status-malformed":
+		h.set(r, 5, [][]byte{{}, {1}, {1, 0, 0}, {1, 0, 1, 9, 0}, {1, 0, 0, 0, 0, 0}}[r.Intn(5)])
+	case "renego-malformed":
+		h.set(r, 0xff01, [][]byte{{}, {2, 1}, {0, 0}}[r.Intn(3)])
+	case "points-empty":
+		h.set(r, 11, vVec(1, nil))
+	case "sct-nonempty":
+		h.set(r, 18, r.Bytes(1+r.Intn(4)))
+	case "early-nonempty":
+		h.set(r, 42, r.Bytes(1+r.Intn(4)))
 	}
 }
 
@@ -1002,15 +1168,20 @@ func TestVerifC07(t *testing.T) {
 			k   int
 			ver uint16
 		}{{12, tls.VersionTLS12}, {13, tls.VersionTLS13}} {
-			c, err := vC07Session(cert, v.ver, fmt.Sprintf("resume%d.example", v.k))
-			if err != nil {
-				t.Errorf("resumption setup for TLS %d failed: %v", v.k, err)
+			var c tls.ClientSessionCache
+			var err error
+			for try := 0; try < 3 && c == nil; try++ {
+				c, err = vC07Session(cert, v.ver, fmt.Sprintf("resume%d.example", v.k))
+			}
+			if c == nil {
+				// only costs the resumption hellos; not a property failure
+				out.Stat(fmt.Sprintf("resumption-setup-failed-tls%d", v.k), fmt.Sprint(err))
 				continue
 			}
 			caches[v.k] = c
 		}
 	} else {
-		t.Errorf("certificate: %v", err)
+		out.Stat("resumption-setup-failed-cert", fmt.Sprint(err))
 	}
 
 	stats := map[string]int{}
@@ -1163,12 +1334,103 @@ func TestVerifC07(t *testing.T) {
 		if !mr.set || mr.version != h.legacy {
 			out.Fail("C07:placeholder:version", fmt.Sprintf("l4.tls.version set=%v value %#x, the hello's legacy_version is %#x", mr.set, mr.version, h.legacy), desc)
 		}
+		// what a handler configured with the placeholders receives (an empty server name renders as
+		// the replacer's empty-value substitute)
+		wantName := seen.name
+		if wantName == "" {
+			wantName = "<unset>"
+		}
+		if wantR := fmt.Sprintf("%s|%d", wantName, h.legacy); mr.rendered != wantR {
+			out.Fail("C07:placeholder:rendered", fmt.Sprintf("\"{l4.tls.server_name}|{l4.tls.version}\" renders as %q; from the crypto/tls server's view it is %q", mr.rendered, wantR), desc)
+		}
+		// the version list the server derives and FillTLSClientConfig's min/max derived from the matcher's list
+		if len(seen.vers) > 0 {
+			var c2 tls.Config
+			info.FillTLSClientConfig(&c2)
+			mn, mx := seen.vers[0], seen.vers[0]
+			for _, v := range seen.vers {
+				if v < mn {
+					mn = v
+				}
+				if v > mx {
+					mx = v
+				}
+			}
+			if c2.MinVersion != mn || c2.MaxVersion != mx || c2.ServerName != seen.name || !vC07StrEq(c2.NextProtos, seen.protos) {
+				out.Fail("C07:fill-client-config:differs", fmt.Sprintf("FillTLSClientConfig gives min=%#x max=%#x name=%q alpn=%q; from the crypto/tls server's view min=%#x max=%#x name=%q alpn=%q",
+					c2.MinVersion, c2.MaxVersion, c2.ServerName, c2.NextProtos, mn, mx, seen.name, seen.protos), desc)
+			}
+		}
 		if !useSni && i%4 == 0 {
 			out.Case(fmt.Sprintf("CGate %s %s %s %s %s %s %d", vC07B(rec), cBool(useAlpn), vC07SL(ac), mr.verdict, cBool(mr.set), vC07B([]byte(mr.name)), mr.version),
 				"gate:full", true, nil)
 		}
 		if expectOk && len(gateRecords) < 60 && (i%7 == 0 || len(rec) > 1500) {
 			gateRecords = append(gateRecords, rec)
+		}
+
+		// RFC 8446 5.1: a handshake message may be fragmented across several records; crypto/tls
+		// servers reassemble it.  The same hello, split in two records at a generated point.
+		if i%6 == 0 {
+			hsb := rec[5:]
+			var k int
+			switch r.Intn(4) {
+			case 0:
+				k = 1 + r.Intn(4) // inside the handshake header
+			case 1:
+				k = 4 + 2 + 32 + 1 + len(h.sid) // right after the session id
+			case 2:
+				k = len(hsb) - 1 - r.Intn(8)
+			default:
+				k = 1 + r.Intn(len(hsb)-1)
+			}
+			if k < 1 {
+				k = 1
+			}
+			if k > len(hsb)-1 {
+				k = len(hsb) - 1
+			}
+			frag := append(append([]byte{0x16}, rec[1:3]...), vVec(2, hsb[:k])...)
+			frag = append(frag, append(append([]byte{0x16}, rec[1:3]...), vVec(2, hsb[k:])...)...)
+			fdesc := map[string]any{"cfg": cfg.String(), "mutations": muts, "split_at": k, "bytes": fmt.Sprintf("%x", frag)}
+			fseen := vC07Server(frag)
+			stats["fragmented"]++
+			if !fseen.called {
+				t.Errorf("crypto/tls server did not accept a hello fragmented at %d: %s", k, fseen.hsError)
+			} else {
+				fm := vC07Match(frag, subs)
+				finfo := parseRawClientHello(frag[5 : 5+k])
+				var diffs []string
+				if fseen.name != finfo.ClientHelloInfo.ServerName || !fm.set || fm.name != fseen.name {
+					diffs = append(diffs, fmt.Sprintf("server name: server %q, matcher %q (placeholder set=%v %q)", fseen.name, finfo.ClientHelloInfo.ServerName, fm.set, fm.name))
+				}
+				if !vC07StrEq(fseen.protos, finfo.ClientHelloInfo.SupportedProtos) {
+					diffs = append(diffs, fmt.Sprintf("ALPN: server %q, matcher %q", fseen.protos, finfo.ClientHelloInfo.SupportedProtos))
+				}
+				if !vC07U16eq(fseen.vers, finfo.ClientHelloInfo.SupportedVersions) {
+					diffs = append(diffs, fmt.Sprintf("versions: server %#x, matcher %#x", fseen.vers, finfo.ClientHelloInfo.SupportedVersions))
+				}
+				if !vC07U16eq(fseen.suites, finfo.ClientHelloInfo.CipherSuites) {
+					diffs = append(diffs, "cipher suites")
+				}
+				if !vC07U16eq(fseen.curves, vC07Curves(finfo.ClientHelloInfo.SupportedCurves)) {
+					diffs = append(diffs, "curves")
+				}
+				if len(diffs) > 0 {
+					stats["fragmented-fields-differ"]++
+					out.Fail("C07:fragmented-hello:fields-differ", fmt.Sprintf("ClientHello split into two TLS records after %d of %d handshake bytes: the matcher parses the first record only; %s",
+						k, len(hsb), strings.Join(diffs, "; ")), fdesc)
+				}
+				if (fm.verdict == "Yes") != want || (fm.verdict != "Yes" && fm.verdict != "No") {
+					stats["fragmented-verdict-differs"]++
+					out.Fail("C07:fragmented-hello:verdict-differs", fmt.Sprintf("ClientHello split into two TLS records after %d of %d handshake bytes: tls matcher (sni %q used=%v, alpn %q used=%v) answered %s; deciding on the crypto/tls server's view gives %v",
+						k, len(hsb), sc, useSni, ac, useAlpn, fm.verdict, want), fdesc)
+				}
+				if !useSni {
+					out.Case(fmt.Sprintf("CGate %s %s %s %s %s %s %d", vC07B(frag), cBool(useAlpn), vC07SL(ac), fm.verdict, cBool(fm.set), vC07B([]byte(fm.name)), fm.version),
+						"gate:fragmented", true, nil)
+				}
+			}
 		}
 	}
 
